@@ -148,7 +148,7 @@ func (e *Engine) runFunction(st *State, fn *ssa.Function, args []Value, bind []V
 		// loops in an inlined callee are only allowed when the callee's
 		// contract gives invariants (handled by caller) – otherwise refuse.
 		if c := e.contractOf(fn); c == nil || len(c.LoopInv) == 0 {
-			panic(unsupported("inlined callee with loops needs a contract: " + fn.String()))
+			panic(unsupported("inlined callee with loops needs a contract: " + fn.String() + " (path: " + strings.Join(st.trail, "; ") + ")"))
 		}
 	}
 	for i, p := range fn.Params {
@@ -470,7 +470,6 @@ func (e *Engine) wrap(t types.Type, x Term) Term {
 	}
 	return T("("+wrapFn(t)+" "+x.S+")", SInt)
 }
-
 
 func (e *Engine) binop(st *State, op token.Token, xv, yv Value, xt types.Type, rt types.Type, pos token.Pos) Value {
 	// comparisons on structured values
